@@ -200,7 +200,8 @@ def gen_method(rng, nm, opts, structs, ifaces):
     m = {"k": "method", "name": name, "optional": bool(opts.optional and rng.random() < 0.1),
          "doc": None, "params": params}
     if opts.docs and rng.random() < 0.15:
-        m["doc"] = rng.choice(["  * documented\n  ", " text\n", "* a\n* b\n   ", "\n"])
+        m["doc"] = rng.choice(["  * documented\n  ", " text\n", "* a\n* b\n   ", "\n",
+                               "  µs-ticks since boot — wraps\n   ", " * Größe in Byte\n ", "日本語の説明\n  ", "   é\n "])
     return m
 
 
@@ -280,6 +281,9 @@ def gen_case(rng, opts=None, cid="case"):
         body = [n for n in nodes[i]]
         for n in body:
             n.pop("_depth", None)
+        # the order of the include lines is free (a file reached through an earlier include may
+        # be included again later, in any position)
+        rng.shuffle(incs)
         inc_nodes = [{"k": "include", "path": _inc_string(paths[i], paths[j], rng)} for j in incs]
         files.append({"path": p, "nodes": inc_nodes + body})
     incdirs = sorted({idl._dir_of(p) for p in paths[1:]} - {"."})
@@ -411,6 +415,11 @@ def coverage_case(cid="coverage"):
             M("paint", [P("in", "Rgb", "colour"), P("in", "uint16", "depth")]),
             M("probe", [P("out", "Rgb", "colour"), P("out", "uint16", "depth")]),
             M("route_in", [P("in", "HR32", "rt")]),
+            M("swap_arrays", [P("in", "IPeer", "xs", 2), P("in", "uint16", "n"), P("out", "IPeer", "ys", 2)]),
+            M("attach", [P("in", "H24", "slot"), P("in", "IPeer", "extras", 2)]),
+            M("detach", [P("out", "H24", "slot"), P("out", "IPeer", "extras", 2)]),
+            M("read_row", [P("in", "uint32", "x"), P("out", "S8", "row", "unbounded"), P("out", "uint32", "w"), P("out", "uint16", "h")]),
+            M("write_row", [P("in", "S8", "row", "unbounded"), P("in", "uint32", "w"), P("in", "uint16", "h"), P("out", "uint8", "ok")]),
             M("mix", [P("in", "buffer", "a"), P("in", "uint32", "x"), P("in", "IPeer", "p"), P("out", "uint64", "y"), P("out", "buffer", "b"), P("out", "IPeer", "q")]),
             M("opt", [P("in", "uint32", "x"), P("out", "uint32", "y")], optional=True),
             dict(M("opt_impl", [P("in", "uint16", "x"), P("out", "uint64", "y")], optional=True), implemented=True),
@@ -515,4 +524,23 @@ def big_iface_case(rng, cid="big", grouped=False):
         return out
     nodes = [{"k": "interface", "name": "IBigA", "base": None, "members": members("a", rng.randint(21, 40))},
              {"k": "interface", "name": "IBigB", "base": "IBigA", "members": members("b", rng.randint(21, 30))}]
+    return {"id": cid, "files": [{"path": "main.idl", "nodes": nodes}], "main": "main.idl", "incdirs": []}
+
+
+def coverage_case3(cid="coverage3"):
+    """methods with more than 20 parameters: 24 small inputs and 22 small outputs of mixed sizes
+    (ties inside the bundles), and 22 parameters of all classes declared out of class order"""
+    def P(d, t, n, arr=None):
+        return {"dir": d, "type": t, "arr": arr, "name": n}
+
+    def M(name, params):
+        return {"k": "method", "name": name, "optional": False, "doc": None, "params": params}
+    tys = ["uint8", "uint64", "uint16", "uint32", "int8", "int64", "int16", "int32"]
+    wide = [P("in", tys[(i * 5) % 8], f"a{i:02d}") for i in range(24)] + [P("out", tys[(i * 3 + 1) % 8], f"r{i:02d}") for i in range(22)]
+    hdr = {"k": "struct", "name": "Hdr24", "fields": [{"type": "uint64", "count": 3, "name": "w"}]}
+    pol = {"k": "struct", "name": "Pol32", "fields": [{"type": "uint64", "count": 4, "name": "w"}]}
+    mixed = [P("out", "uint32", "status"), P("in", "Hdr24", "hdr"), P("in", "buffer", "b0"), P("in", "Pol32", "pol"), P("out", "buffer", "ob")] + \
+            [P("in", "uint8", f"f{i:02d}") for i in range(12)] + [P("in", "Hdr24", "hdr2"), P("out", "Pol32", "opol"), P("in", "interface", "o1"),
+             P("out", "interface", "o2"), P("in", "buffer", "b1")]
+    nodes = [hdr, pol, {"k": "interface", "name": "IWide", "base": None, "members": [M("wide", wide), M("mixed", mixed), M("narrow", wide[:3] + wide[24:26])]}]
     return {"id": cid, "files": [{"path": "main.idl", "nodes": nodes}], "main": "main.idl", "incdirs": []}
